@@ -115,6 +115,9 @@ def norm(t):
     if k == "call":
         path = t[1]
         args = tuple(norm(a) for a in t[2])
+        if isinstance(path, str) and short(path) in ("VfsPath::as_str", "AsyncVfsPath::as_str") and len(args) == 1:
+            # trivial accessor of the private `path` field (its body is checked by R06.5)
+            return ("field", args[0], "path")
         if isinstance(path, str) and short(path) in PURE:
             return ("call", short(path), args, None)
         return ("call", path if not isinstance(path, str) else short(path), args, t[3])
@@ -122,6 +125,24 @@ def norm(t):
         return t if k != "arg" else ("arg", t[1], t[2], t[3] if len(t) > 3 else None)
     if k == "cast":
         return norm(t[1])
+    if k == "bin" and t[1] in ("Eq", "Ne", "Gt", "Lt", "Le", "Ge"):
+        a, b = norm(t[2]), norm(t[3])
+        # x.len() == 0  <=>  x.is_empty()   (and the mirrored / negated spellings)
+        emp = None
+        if b == ("int", 0) and a[0] == "call" and a[1] in _LEN_TO_EMPTY:
+            if t[1] in ("Eq", "Le"):
+                emp = (a, False)
+            elif t[1] in ("Ne", "Gt"):
+                emp = (a, True)
+        if a == ("int", 0) and b[0] == "call" and b[1] in _LEN_TO_EMPTY:
+            if t[1] in ("Eq", "Ge"):
+                emp = (b, False)
+            elif t[1] in ("Ne", "Lt"):
+                emp = (b, True)
+        if emp is not None:
+            c = ("call", _LEN_TO_EMPTY[emp[0][1]], emp[0][2], None)
+            return ("un", "Not", c) if emp[1] else c
+        return ("bin", t[1], a, b)
     if k == "phi":
         return ("phi", tuple(sorted({norm(x) for x in t[1]}, key=repr)))
     if k == "agg":
@@ -138,8 +159,19 @@ def norm(t):
     return tuple(out)
 
 
+_LEN_TO_EMPTY = {"str::len": "str::is_empty", "String::len": "String::is_empty", "Vec::len": "Vec::is_empty",
+                 "slice::len": "slice::is_empty"}
+
+
 def nguard(g):
-    return (g[0], norm(g[1])) + tuple(g[2:])
+    t = norm(g[1])
+    if g[0] == "bool":
+        v = g[2]
+        while t[0] == "un" and t[1] == "Not":
+            t = t[2]
+            v = not v
+        return ("bool", t, v)
+    return (g[0], t) + tuple(g[2:])
 
 
 def is_ascii_pat(t):
